@@ -8,7 +8,7 @@ use vbase::gens::{self, DocParams};
 use vbase::refjson::{self, is_ws, lex_string, scan, show_bytes, skip_ws, NoSink, Span};
 use vbase::{ensure, fail};
 
-pub const RULE: &str = "cases are byte strings whose first value is (usually) an array or object: generated containers of size 0..=40 with nesting, escaped keys, whitespace variation and trailing bytes after the container, every truncation / substitution / deletion of a set of them, random mutations, UTF-8 damage. For each input both iterator kinds run over &[u8], &str, &String, &Bytes, &FastStr (checked), the *_unchecked forms and LazyValue::into_array_iter/into_object_iter (well-formed input only). Expected (reference scan): one item per leading member that is a well-formed value behind a correct separator (and key and colon) with raw text == exact source span and key == decoded name; then None if the container closed correctly, otherwise exactly one Err; afterwards None on three further polls. For non-UTF-8 input the Ok items must be a prefix of the reference items followed by exactly one Err (the iterators validate UTF-8 up front). Non-trivial = >= 2 members (well-formed) or >= 1 leading member before the violation (malformed); distinct by input.";
+pub const RULE: &str = "cases are byte strings whose first value is (usually) an array or object: generated containers of size 0..=40 with nesting, escaped keys, whitespace variation and trailing bytes after the container, shallow containers with 64..1030 tiny members, bracket-burst containers whose elements close one or more 64-byte blocks after they opened, every truncation / substitution / deletion of a set of them, random mutations, UTF-8 damage. For each input both iterator kinds run over &[u8], &str, &String, &Bytes, &FastStr (checked), the *_unchecked forms and LazyValue::into_array_iter/into_object_iter (well-formed input only). Expected (reference scan): one item per leading member that is a well-formed value behind a correct separator (and key and colon) with raw text == exact source span and key == decoded name; then None if the container closed correctly, otherwise exactly one Err; afterwards None on three further polls. For non-UTF-8 input the Ok items must be a prefix of the reference items followed by exactly one Err (the iterators validate UTF-8 up front). Non-trivial = >= 2 members (well-formed) or >= 1 leading member before the violation (malformed); distinct by input.";
 pub const ASSUMPTIONS: &[&str] = &["refjson scanner", "members whose only defect is an unpaired surrogate escape may be yielded or rejected (the statement does not fix the tier for values)"];
 
 #[derive(Debug, Clone, PartialEq)]
@@ -257,7 +257,7 @@ pub fn oracle(b: &[u8], obs: &mut Obs) -> Result<(), Fail> {
 }
 
 pub fn subs() -> Vec<Sub<'static>> {
-    ["containers", "mutated", "sweep", "sizes"].iter().map(|n| Sub { name: n, oracle: &oracle, minimise_bytes: true }).collect()
+    ["containers", "mutated", "sweep", "sizes", "many-small", "brackets"].iter().map(|n| Sub { name: n, oracle: &oracle, minimise_bytes: true }).collect()
 }
 
 fn sub(name: &str) -> Sub<'static> {
@@ -290,6 +290,8 @@ pub fn run(ctx: &Ctx) {
         }
         m
     });
+    ctx.search(&sub("many-small"), "many-small", ctx.n(1_500, 30_000), 200, &|src: &mut Src| gens::gen_many_small(src));
+    ctx.search(&sub("brackets"), "bracket-stress", ctx.n(150_000, 2_000_000), 300, &|src: &mut Src| crate::lazyhelp::gen_bracket_stress(src));
     // sizes 0..=40 with each element kind
     ctx.sweep(&sub("sizes"), true, &|shard, n, emit| {
         let elems: [&str; 8] = ["1", "\"a\\\"b\"", "null", "[1,[2]]", "{\"k\":{}}", "-1.5e3", "\"\"", "true"];
